@@ -37,7 +37,7 @@ def rot(prog, ctx):
     fn = prog.fn(L + 'Rotation_Matrix')
     sx = Symx(prog, fn)
     outs = sx.run()
-    dim = sx.symbol('dim', 'int')
+    dim = sx.symbol(fn.params[1]['name'], 'int')
     alpha = sx.symbol(fn.params[0]['name'], 'double')
     c, s = sp.symbols('c s', real=True)
     o2 = [o for o in outs if o.kind == 'return' and o.cond.subs(dim, 2) == S.true]
